@@ -41,6 +41,20 @@ def gen(rs: int, tier: str, index: int) -> dict:
         f[4] = ",".join(gen_element(r, 0, 6) for _ in range(r.choice([1, 2])))
         expr = " ".join(f)
     off = gen_offset(r)
+    if r.random() < 0.12:
+        # an all-day expression: minute and hour are wildcards, only the date fields select - with an offset the day boundary of the
+        # shifted clock decides
+        from sim.cronref import gen_element
+        f = expr.split(" ")
+        f[0] = f[1] = "*"
+        k = r.randint(0, 2)
+        if k != 1:
+            f[2] = ",".join(gen_element(r, 1, 31) for _ in range(r.choice([1, 2, 3])))
+        if k != 0:
+            f[4] = ",".join(gen_element(r, 0, 6) for _ in range(r.choice([1, 2])))
+        expr = " ".join(f)
+        while off is None:
+            off = gen_offset(r)
     c = r.randint(0, 4)
     if off is not None and "zone" in off and r.random() < 0.5:
         c = 0
